@@ -4,7 +4,7 @@ set -u
 patch="$1"; shift
 cd /repo || exit 2
 if ! git diff --quiet; then echo "REPO DIRTY"; exit 2; fi
-if ! git apply --3way "$patch" 2>/tmp/apply.err && ! git apply "$patch" 2>>/tmp/apply.err; then echo "PATCH DOES NOT APPLY: $(head -3 /tmp/apply.err)"; git checkout -- . ; exit 3; fi
+if ! git apply --3way "$patch" 2>/tmp/apply.err && ! git apply "$patch" 2>>/tmp/apply.err; then echo "PATCH DOES NOT APPLY: $(head -3 /tmp/apply.err)"; git reset -q --hard HEAD; exit 3; fi
 cd /verif
 for c in "$@"; do
   out=$(timeout 900 ./run.sh "$c" "${TIER:-quick}" 2>&1); rc=$?
